@@ -534,6 +534,7 @@ func g05HTTPProxy(repo string, w *Out) error {
 	w.DefStr("localhost_direct_const", dplv)
 
 	// the two wrappers
+	ddMapsIDNA := false
 	for _, wr := range []struct{ fn, pred, def string }{
 		{"HTTPProxy.directDomains", "hp.config.DirectDomains.Match(req.URL.Hostname())", "dd"},
 		{"HTTPProxy.directLocalhost", "hp.isLocalhost(req.URL.Hostname())", "dl"},
@@ -560,11 +561,35 @@ func g05HTTPProxy(repo string, w *Out) error {
 		if !ok || f.Src(is.Body) != "{ return nil, nil }" || f.Src(fl.Body.List[1]) != "return fn(req)" {
 			return fmt.Errorf("%s: closure body is not `if <pred> {return nil, nil}; return fn(req)`", wr.fn)
 		}
-		if f.Src(is.Cond) != wr.pred {
-			return fmt.Errorf("%s: predicate is %q, expected %q", wr.fn, f.Src(is.Cond), wr.pred)
+		cond := f.Src(is.Cond)
+		if is.Init != nil {
+			cond = f.Src(is.Init) + "; " + cond
+		}
+		switch {
+		case cond == wr.pred:
+		case wr.def == "dd" && (cond == "h := req.URL.Hostname(); hp.config.DirectDomains.Match(h) || hp.config.DirectDomains.Match(asciiHostname(h))"):
+			// the name as written and the name the transport connects to
+			ah, err := f.Func("asciiHostname")
+			if err != nil {
+				return err
+			}
+			if !strings.Contains(f.Src(ah.Body), "if a, err := idna.Lookup.ToASCII(host); err == nil { return a }") ||
+				!strings.HasSuffix(f.Src(ah.Body), "return host }") {
+				return fmt.Errorf("asciiHostname: body is not the shape the model knows (idna.Lookup.ToASCII on non-ASCII names, identity otherwise)")
+			}
+			ddMapsIDNA = true
+		default:
+			return fmt.Errorf("%s: predicate is %q, expected %q", wr.fn, cond, wr.pred)
 		}
 	}
 	w.DefBool("wrappers_test_url_hostname", true)
+	w.DefBool("direct_domains_maps_idna", ddMapsIDNA)
+	// isLocalhost maps the name itself (C04 models and proves the classifier; here only where the mapping happens)
+	il, err := f.Func("HTTPProxy.isLocalhost")
+	if err != nil {
+		return err
+	}
+	w.DefBool("localhost_maps_idna_inside", strings.Contains(f.Src(il.Body), "asciiHostname(host)"))
 
 	// pacProxy
 	pp, err := f.Func("HTTPProxy.pacProxy")
